@@ -313,6 +313,11 @@ func Spec() *vf.Check {
 				tl := cov["tla"].(map[string]interface{})
 				tl["model_edges_in_dumped_graphs"], tl["model_edges_not_exercised"], tl["model_edges_not_exercised_by_event"], tl["model_edges_not_exercised_examples"] = total, unc, byEvent, examples
 			}
+			if m.Counters["protocol_monitors_and_model_conformance_skipped_probe_functions_renamed"] > 0 {
+				cov["exhaustive"] = false
+				cov["protocol_monitors"] = "switched off: runGeneration / writeGeneration / PurgeGeneration / GetGeneration do not all exist under these names in this tree, so the event stream the monitors M1-M4 and the TLA+ conformance read would be partial; the verdict rests on output equality, block-written-once, deadlock and race detection"
+				fmt.Fprintf(vf.Stdout, "NOTE property=C07 protocol monitors M1-M4 and the model conformance are switched off on this tree (a probed function was renamed); the other parts are unaffected\n")
+			}
 			if m.Counters["tla_part_unavailable"] > 0 {
 				cov["exhaustive"] = false
 				cov["tla"].(map[string]interface{})["available"] = false
